@@ -391,6 +391,13 @@ Definition seen (r : rec) : N * N * N * N * N :=
   let w := pack_word (type_code (r_type r)) 0 (r_depth r) (r_addr r) in
   (r_time r, w_type w, w_magic w, w_depth w, w_addr w).
 
+(* record_ret_stack drops a call whose depth does not fit the depth field of the record (possible with
+   --max-stack > 1024): what reaches the buffer are the storable records, each as the readers see it *)
+Definition storable (r : rec) : bool := r_depth r <? 2 ^ REC_DEPTH_WIDTH.
+Definition disk (l : list rec) : list (N * N * N * N * N) := map seen (filter storable l).
+(* the record a reader must see for an abstract record (no wrap: the true depth and address) *)
+Definition ideal (r : rec) : N * N * N * N * N := (r_time r, type_code (r_type r), RECORD_MAGIC, r_depth r, r_addr r).
+
 (* ---------------------------------------------------------------- the instrumented program as driver
    The compiler-inserted stub calls the exit hook only for calls whose entry hook returned 0
    (-pg / fentry / PLT); __cyg_profile_func_exit is always called. *)
@@ -508,10 +515,10 @@ Definition mkcfgL (tr : list (N * trig)) (fm cl lm : bool) (gd thr ms : N) (size
 (* one correspondence case: model run vs. observed states and records *)
 Definition agree_case (c : cfg) (es : list ev) (ostates : list obs) (orecs : list seen5) : bool :=
   let '(l, (s, _)) := trace c es (init, []) in
-  list_eqb obs_eqb l ostates && list_eqb seen_eqb (map seen (out s)) orecs.
+  list_eqb obs_eqb l ostates && list_eqb seen_eqb (disk (out s)) orecs.
 Definition agree_case_off (c : cfg) (es : list ev) (ostates : list obs) (orecs : list seen5) : bool :=
   let '(l, (s, _)) := trace c es (init_off, []) in
-  list_eqb obs_eqb l ostates && list_eqb seen_eqb (map seen (out s)) orecs.
+  list_eqb obs_eqb l ostates && list_eqb seen_eqb (disk (out s)) orecs.
 Definition agree_case_z (z : N) (c : cfg) (es : list ev) (ostates : list obs) (orecs : list seen5) : bool :=
   let '(l, (s, _)) := trace c es (init_z z, []) in
-  list_eqb obs_eqb l ostates && list_eqb seen_eqb (map seen (out s)) orecs.
+  list_eqb obs_eqb l ostates && list_eqb seen_eqb (disk (out s)) orecs.
